@@ -89,6 +89,7 @@ type Catalogue struct {
 	autoRT    map[string][2]string   // type key -> marshal / unmarshal method names
 	Cost      []int                  // yields of one sequential execution per catalogue entry (from the probe step; nil if not probed)
 	Hot       []bool                 // the entry executed a hot site (package-level state, sync, atomic) in the probe step
+	Size      []int                  // length of the canonical outcome dump (arguments + results) in the probe step: what building and comparing one call costs the harness
 }
 
 type methodRef struct {
@@ -252,6 +253,7 @@ type probeFile struct {
 	Samples []probeSample `json:"samples"`
 	Cost    []int         `json:"cost"`
 	Hot     []bool        `json:"hot"`
+	Size    []int         `json:"size"`
 }
 
 type probeSample struct {
@@ -306,6 +308,7 @@ func (c *Catalogue) WriteProbe(path string) error {
 	}
 	out.Cost = c.Cost
 	out.Hot = c.Hot
+	out.Size = c.Size
 	b, err := json.Marshal(out)
 	if err != nil {
 		return err
@@ -324,6 +327,7 @@ func (c *Catalogue) loadProbe(path string) error {
 	}
 	c.Cost = pf.Cost
 	c.Hot = pf.Hot
+	c.Size = pf.Size
 	for i, s := range pf.Samples {
 		d, err := hex.DecodeString(s.Data)
 		if err != nil {
